@@ -79,7 +79,7 @@ class Opt:
         self.canonical = False        # renderer's own normal form only
         self.prose = False            # C10: prose-only leaf blocks, rich inline
         self.outline = False          # C19: plain-word headings forming an outline
-        self.setext_in_quote = False  # known finding C04-setext-in-quote: off by default
+        self.setext_in_quote = True   # (was known finding C03/C04-setext-in-quote; repaired)
         self.lazy_after_indented = False   # known finding C03-lazy-after-indented-in-quote
         self.setext_space_hard_break = True    # (was known finding C03-setext-trailing-space-hard-break, repaired in 6a8c723)
         self.tilde_code_in_strike = False      # known finding C03-strike-vs-code-tilde
@@ -533,9 +533,8 @@ class Gen:
         # runs into known finding C03-trailing-blank-makes-single-item-list-loose)
         if kind == 'list' and prev is not None and prev.kind == 'list':
             # ... except that a list of another type (5.3: other bullet character / other delimiter / bullet vs ordered) after a
-            # list is a spelling of two lists; a blank line always separates them (can_follow).  Known finding
-            # C03-trailing-blank-makes-single-item-list-loose: not after a list whose last item holds several blocks
-            if len(prev.items[-1].blocks) <= 1 and opt.adjacent_lists and self.rng.random() < 0.5:
+            # list is a spelling of two lists; a blank line always separates them (can_follow)
+            if opt.adjacent_lists and self.rng.random() < 0.5:
                 nd = self.list_(depth, in_quote)
                 if nd.ordered == prev.ordered:
                     if nd.ordered:
@@ -788,7 +787,7 @@ def check_tree(blocks, opt, ctx='doc', in_quote=False, last_chain=True):
             raise AssertionError('unclosed fence not at the end of the document')
         if k == 'list' and prev is not None and prev.kind == 'list':
             same = nd.ordered == prev.ordered and (nd.delim == prev.delim if nd.ordered else nd.bullet == prev.bullet)
-            if same or len(prev.items[-1].blocks) > 1 or not opt.adjacent_lists:
+            if same or not opt.adjacent_lists:
                 raise AssertionError('R5: adjacent lists')
         if k == 'icode' and (prev is not None and prev.kind in ('para', 'list', 'icode') or (i == 0 and ctx == 'item')):
             raise AssertionError('R6: indented code position')
